@@ -397,4 +397,66 @@ example : serveStack [.csrf cfgDefault, .requestID, .csrf cfgSecond] reqFresh st
 example : serveStack [.csrf cfgDefault, .csrf cfgSecond]
     { reqOK with cookies := [(lit "_csrf", lit "tokn"), (lit "_csrf2", lit "zz")] } [] = .rejected 400 := by decide
 
+/-! ## what the handler finds in the context: shared ContextKey, preset values (round 5) -/
+
+/-- no item of `l` is a CSRF instance that published under `key` -/
+def NoPub (key : Str) (l : List (Mw × Pub)) : Prop :=
+  ∀ c sc ctx a, (Mw.csrf c, Pub.csrf sc ctx a) ∈ l → c.contextKey ≠ key
+
+theorem ctxOf_noPub (key : Str) (l : List (Mw × Pub)) : NoPub key l → ∀ cur, ctxOf key l cur = cur := by
+  induction l with
+  | nil => intro _ cur; rfl
+  | cons x l ih =>
+    intro h cur
+    have hl : NoPub key l := fun c sc ctx a hm => h c sc ctx a (List.mem_cons_of_mem _ hm)
+    obtain ⟨m, p⟩ := x
+    cases m with
+    | requestID => simp only [ctxOf]; exact ih hl cur
+    | csrf c =>
+      cases p with
+      | skipped => simp only [ctxOf]; exact ih hl cur
+      | rid id => simp only [ctxOf]; exact ih hl cur
+      | csrf sc ctx a =>
+        simp only [ctxOf]
+        have : c.contextKey ≠ key := h c sc ctx a List.mem_cons_self
+        simp only [this, ite_false]
+        exact ih hl cur
+
+/-- **C12_ctx_innermost** — whatever was in the context before (a value preset by an earlier
+    middleware, the token of an outer CSRF instance with the same ContextKey), the handler finds
+    under `key` the token of the LAST instance of the stack that published under `key`: every
+    instance overwrites the key with its own token and none ever reads it. -/
+theorem C12_ctx_innermost (key : Str) (pre post : List (Mw × Pub)) (c : Cfg) (sc tok : Str)
+    (a : CookieAttrs) (hk : c.contextKey = key) (hpost : NoPub key post) (cur : Option Str) :
+    ctxOf key (pre ++ (Mw.csrf c, Pub.csrf sc tok a) :: post) cur = some tok := by
+  induction pre generalizing cur with
+  | nil =>
+    simp only [List.nil_append, ctxOf, hk, ite_true]
+    exact ctxOf_noPub key post hpost _
+  | cons x pre ih =>
+    obtain ⟨m, p⟩ := x
+    cases m with
+    | requestID => simp only [List.cons_append, ctxOf]; exact ih _
+    | csrf c' =>
+      cases p with
+      | skipped => simp only [List.cons_append, ctxOf]; exact ih _
+      | rid id => simp only [List.cons_append, ctxOf]; exact ih _
+      | csrf sc' ctx' a' => simp only [List.cons_append, ctxOf]; exact ih _
+
+/-- a skipped instance, or one whose key nobody publishes under, leaves what was there -/
+theorem C12_ctx_untouched (key : Str) (l : List (Mw × Pub)) (h : NoPub key l) (init : Option (Str × Str)) :
+    ctxOf key l (initCtx init key) = initCtx init key := ctxOf_noPub key l h _
+
+/-- outer instance (default key), `RequestID()`, inner instance with its own cookie but the same
+    default key: both publish their own Set-Cookie, the handler finds the INNER token under "csrf" -/
+example : handlerView [.csrf cfgDefault, .requestID, .csrf cfgSecond]
+    [.csrf (lit "ABaz") (lit "ABaz") (cookieAttrs cfgDefault), .rid (lit "r"),
+     .csrf (lit "DE") (lit "DE") (cookieAttrs cfgSecond)] (some (lit "csrf", lit "preset")) =
+    [.csrf (some (lit "ABaz", cookieAttrs cfgDefault)) (some (lit "DE")), .rid (lit "r"),
+     .csrf (some (lit "DE", cookieAttrs cfgSecond)) (some (lit "DE"))] := by decide
+
+/-- a skipped instance publishes nothing: the handler finds what an earlier middleware preset -/
+example : handlerView [.csrf cfgDefault] [.skipped] (some (lit "csrf", lit "preset")) =
+    [.csrf none (some (lit "preset"))] := by decide
+
 end C12
